@@ -64,3 +64,32 @@ Example C03_example :
   rlookup (okey_output (U"log") 1) (number [] se) = Some (DOut [] []) /\
   length (number [] se) = 13%nat.
 Proof. vm_compute. repeat split; reflexivity. Qed.
+
+(** ---- non-vacuity per theorem (wp-audit): the two theorems with premises ---- *)
+(** C03_recorded_outputs_exact: a program with two output aliases (one called twice, once from inside a caught
+    failure), a user record_data whose key does not look like an output entry, started from a counter that
+    already holds one 'send': ukeys_ok, nothing aborted, three calls sent *)
+Definition c03_send : ocfg := {| o_alias := U"send"; o_static := true; o_handler := None; o_fail := true; o_default := VNone |}.
+Definition c03_log : ocfg := {| o_alias := U"log"; o_static := false; o_handler := None; o_fail := false; o_default := VNone |}.
+Definition c03_prog : code :=
+  Out c03_send (Ret (Lit VNone)) [Lit (VInt 1)] []
+    (RecordData (U"note") (Lit (VInt 7))
+       (Try (Out c03_log (Raise (U"IOError")) [] [(U"m", Lit (VStr (U"x")))] (Ret (Var 0)))
+            (Out c03_send (Ret (Lit VNone)) [Lit (VInt 2)] [] (Ret (Var 0))))).
+Example C03_recorded_outputs_exact_nonvacuous :
+  let s := mk_rst true true false [(U"send", 1%N)] false in
+  let '(_, s', l) := rec_exec {| p_rate := 1; p_ignore := false; p_skipped := false; p_copy := false |} c03_prog [] s in
+  ukeys_ok c03_prog /\ aborts_of l = 0%nat /\ length (sent_of l) = 3%nat /\
+  map fst (outw_of l) = [okey_output (U"send") 2; okey_output (U"log") 1; okey_output (U"send") 3] /\
+  counter s' = [(U"send", 3%N); (U"log", 1%N)].
+Proof. vm_compute. repeat split; reflexivity. Qed.
+
+(** C03_diff_localised: premise 1 <= n, two runs that differ in the second 'send' only *)
+Example C03_diff_localised_nonvacuous :
+  let se1 := [(U"send", Some (DOut [VInt 1] [])); (U"log", Some (DOut [] [])); (U"send", Some (DOut [VInt 2] []))] in
+  let se2 := [(U"send", Some (DOut [VInt 1] [])); (U"log", Some (DOut [] [])); (U"send", Some (DOut [VInt 3] []))] in
+  (1 <= 2)%N /\
+  nth_sent (U"send") se1 0 = nth_sent (U"send") se2 0 /\ nth_sent (U"send") se1 1 <> nth_sent (U"send") se2 1 /\
+  rlookup (okey_output (U"send") 1) (number [] se1) = rlookup (okey_output (U"send") 1) (number [] se2) /\
+  rlookup (okey_output (U"send") 2) (number [] se1) <> rlookup (okey_output (U"send") 2) (number [] se2).
+Proof. vm_compute. repeat split; try reflexivity; discriminate. Qed.
